@@ -656,6 +656,77 @@ func genRefToken(r *harness.Rand) *refcodec.Token {
 	return t
 }
 
+// varintBoundaryTokens: every number and every length the wire format writes as a varint, placed
+// on both sides of and exactly at each 7-bit boundary (2^7, 2^14, 2^21 ...): scalar fields up to
+// 2^63 / 2^32, lengths of every byte field up to 2^14 + 1 (2^21 + 1 in the thorough tier), and
+// nested metadata whose total length crosses the same boundaries.
+func varintBoundaryTokens(thorough bool) []*refcodec.Token {
+	var out []*refcodec.Token
+	var vals []uint64
+	for k := uint(7); k <= 63; k += 7 {
+		vals = append(vals, 1<<k-1, 1<<k, 1<<k+1)
+	}
+	vals = append(vals, 1<<32-1, 1<<32, 1<<64-1)
+	base := func() *refcodec.Token {
+		return &refcodec.Token{Type: 1, Value: big.NewInt(5), Meta: &refcodec.MetaData{Nonce: 3, Name: []byte("n"), Creator: []byte("c"), Royalties: 7, Hash: []byte("h"), URIs: [][]byte{[]byte("u")}, Attributes: []byte("a")}}
+	}
+	for _, v := range vals {
+		t := base()
+		t.Meta.Nonce = v
+		out = append(out, t)
+		if v <= 1<<32-1 {
+			t = base()
+			t.Type = uint32(v)
+			out = append(out, t)
+			t = base()
+			t.Meta.Royalties = uint32(v)
+			out = append(out, t)
+		}
+	}
+	lens := []int{126, 127, 128, 129, 1<<14 - 2, 1<<14 - 1, 1 << 14, 1<<14 + 1}
+	if thorough {
+		lens = append(lens, 1<<21-1, 1<<21, 1<<21+1)
+	}
+	fill := func(n int) []byte { return bytes.Repeat([]byte{0x61}, n) }
+	for _, n := range lens {
+		for f := 0; f < 8; f++ {
+			t := base()
+			switch f {
+			case 0:
+				t.Properties = fill(n)
+			case 1:
+				t.Reserved = fill(n)
+			case 2:
+				t.Meta.Name = fill(n)
+			case 3:
+				t.Meta.Creator = fill(n)
+			case 4:
+				t.Meta.Hash = fill(n)
+			case 5:
+				t.Meta.Attributes = fill(n)
+			case 6:
+				t.Meta.URIs = [][]byte{[]byte("x"), fill(n), {}}
+			case 7:
+				// the amount: sign byte + n-1 magnitude bytes
+				t.Value = new(big.Int).SetBytes(append([]byte{1}, make([]byte, n-2)...))
+			}
+			out = append(out, t)
+		}
+		// the nested metadata message as a whole is n bytes long, or one more / less: the
+		// attributes take up the slack (overhead of base(): measured with the reference codec)
+		for d := -3; d <= 3; d++ {
+			t := base()
+			t.Properties, t.Value = nil, nil
+			probe := len(refcodec.EncodeToken(t))
+			if pad := n + d - probe; pad > 0 {
+				t.Meta.Attributes = fill(1 + pad)
+				out = append(out, t)
+			}
+		}
+	}
+	return out
+}
+
 func runC14(c *harness.Ctx) {
 	R := c.R
 	caster := &data.BigIntCaster{}
@@ -787,8 +858,20 @@ func runC14(c *harness.Ctx) {
 	R.Eval(nv)
 	// ---- structured values: library encoder vs reference encoder, size, determinism, round trip ----
 	ns := c.Scale(40000, 400000) / c.Batches
-	for i := 0; i < ns; i++ {
-		t := genRefToken(r)
+	var directed []*refcodec.Token
+	for i, t := range varintBoundaryTokens(c.Tier == "thorough") {
+		if mine(c, i) {
+			directed = append(directed, t)
+		}
+	}
+	for i := 0; i < ns+len(directed); i++ {
+		var t *refcodec.Token
+		if i < len(directed) {
+			t = directed[i]
+			R.Cover("C14/varint-boundary-tokens")
+		} else {
+			t = genRefToken(r)
+		}
 		guard(R, "C14", "token-marshal", func() interface{} { return fmt.Sprintf("%+v", *t) }, func() {
 			e := libTokenFromRef(t)
 			got, err := e.Marshal()
@@ -1856,6 +1939,27 @@ func runC18(c *harness.Ctx) {
 				R.Violate("C18:registry-names", fmt.Sprintf("container holds %d names %v, the protocol defines 23: %v", sh.Container.Len(), got, want), got)
 			}
 			R.Cover("C18/registry-checks")
+		}
+		// in every one of these configurations (DNS set empty, one, three; second container) the
+		// functions without an activation epoch are active, before any notification and after one
+		for round := 0; round < 2; round++ {
+			for _, sh := range w.Shards {
+				for _, name := range AllFuncs {
+					fn, err := sh.Container.Get(name)
+					if err != nil {
+						continue
+					}
+					want := true
+					if gatedFuncs[name] {
+						want = round == 1
+					}
+					if fn.IsActive() != want {
+						R.Violate("C18:activation:"+name, fmt.Sprintf("%s.IsActive() = %v in configuration %d (DNS addresses: %d, activation epoch %d, notifications so far: %d), expected %v", name, fn.IsActive(), cfg, len(dns), cfg, round, want), cfg)
+					}
+					R.Cover("C18/always-active-checked")
+				}
+			}
+			w.ConfirmEpoch(uint32(cfg) + 1)
 		}
 	}
 	// ---- binding probes ----
